@@ -112,10 +112,8 @@ var funcmap = FuncMap{
 		for _, s := range l {
 			res += convert(s).String()
 		}
-		if len(res) > 1 {
-			return " " + strings.TrimSpace(res)
-		}
-		return ""
+		// a template literal is the concatenation of its parts, nothing else
+		return res
 	},
 	"__op__array": func(a ...interface{}) Object { return convert(a) },
 	"__op__map": func(a ...interface{}) Object {
